@@ -46,6 +46,29 @@ pub fn spellings(v: &str) -> Vec<(&'static str, String)> {
             out.push((name, s));
         }
     }
+    // control characters written as themselves (a multi-line string of a file with any line-ending
+    // convention): only the backslash and the delimiting quote are escaped
+    if v.contains(['\n', '\r', '\t', '\u{1}']) {
+        for (name, q) in [("single-quoted-verbatim", '\''), ("double-quoted-verbatim", '"')] {
+            let mut s = String::new();
+            s.push(q);
+            for c in v.chars() {
+                match c {
+                    '\\' => s.push_str("\\\\"),
+                    c if c == q => {
+                        s.push('\\');
+                        s.push(c)
+                    }
+                    c => s.push(c),
+                }
+            }
+            s.push(q);
+            out.push((name, s));
+        }
+        if !v.contains('"') {
+            out.push(("triple-double-verbatim", format!("\"\"\"{}\"\"\"", v.replace('\\', "\\\\"))));
+        }
+    }
     // raw strings hold everything except their quote character (and, conservatively, line breaks)
     for (name, q) in [("raw-single", '\''), ("raw-double", '"')] {
         if !v.contains(q) && !v.contains('\n') && !v.contains('\r') {
@@ -623,7 +646,7 @@ pub fn run(tier: Tier) -> i32 {
     }
     run.states = values.len() as u64 + nums.len() as u64 + OTHER.len() as u64;
     run.transitions = run.validated;
-    run.set("bounds", json!({"string_alphabet": SIGMA.iter().map(|c| c.escape_default().to_string()).collect::<Vec<_>>(), "max_len": maxlen, "values": values.len(), "spellings": ["single-quoted","double-quoted","triple-single","triple-double","raw-single","raw-double","unicode-escapes","hex-escapes","f-string constant","relation-literal cell"], "number_alphabet": NUM_SIGMA.iter().collect::<String>(), "number_max_len": tier.pick(4, 5), "other_literals": OTHER.len(), "executed": ["sqlite","generic"], "format": [false, true], "tokenised_dialects": 12}));
+    run.set("bounds", json!({"string_alphabet": SIGMA.iter().map(|c| c.escape_default().to_string()).collect::<Vec<_>>(), "max_len": maxlen, "values": values.len(), "spellings": ["single-quoted","double-quoted","triple-single","triple-double","single-quoted-verbatim","double-quoted-verbatim","triple-double-verbatim","raw-single","raw-double","unicode-escapes","hex-escapes","f-string constant","relation-literal cell"], "number_alphabet": NUM_SIGMA.iter().collect::<String>(), "number_max_len": tier.pick(4, 5), "other_literals": OTHER.len(), "executed": ["sqlite","generic"], "format": [false, true], "tokenised_dialects": 12}));
     run.set("rule", json!("every string over the alphabet up to max_len: each spelling must parse to that value; the compiled statement must return exactly that text (SQLite executes sqlite and generic output, format off and on); for all 12 dialects the statement tokenises (sqlparser tokenizer of that dialect) to the same token kinds as with a benign literal and its string token reads back as the value"));
     run.assume("sqlparser's tokenizer stands for each dialect's lexical rules (backslash escapes for MySQL, BigQuery, ClickHouse, Snowflake…)");
     run.finish()
